@@ -796,6 +796,12 @@ def run_build_case(spec: dict) -> dict:
         """States of `path` at the commits inside the window in which the command ran."""
         return [files.get(path, (None, 1, None))[0] for _, t, _, files, _ in watch.samples if run.start <= t <= (run.end or t)]
 
+    def unchecked(path, run):
+        """The input was, at some commit while the command ran, in a state that the completion's hash check
+        skips (anything but BUILT / CONFIRMED: re-declared and UNCONFIRMED, OUTDATED because its producer
+        became pending, ...)."""
+        return any(st not in (BUILT, CONFIRMED) for st in input_history(path, run) if st is not None)
+
     last_run = {}
     for run in res.runs:
         last_run[run.label] = run
@@ -818,7 +824,7 @@ def run_build_case(spec: dict) -> dict:
                 continue  # changed underneath the command: oracle (b)
             digest = digests[0]
             if recorded.get(path) != digest:
-                cause = "input-reconfirmed-during-run" if 12 in input_history(path, run) else "record-updated-during-run"
+                cause = "input-unchecked-at-completion" if unchecked(path, run) else "record-updated-during-run"
                 flagged_steps.add(label)
                 finding("succeeded-on-stale-input:" + cause,
                         f"step '{label}' is SUCCEEDED at the end of the build; its last command read '{path}' with "
@@ -851,8 +857,8 @@ def run_build_case(spec: dict) -> dict:
             count("input-change-not-failed-already-reported-as-stale-input")
         elif tag == "SUCCESS":
             # who moved the record: a re-confirmation, another step's failure handling, or nobody at all
-            if 12 in input_history(changed[0], run):
-                cause = "input-reconfirmed-during-run"
+            if unchecked(changed[0], run):
+                cause = "input-unchecked-at-completion"
             elif recorded.get(changed[0]) == last_seen[changed[0]]:
                 cause = "record-updated-during-run"
             else:
